@@ -1034,6 +1034,20 @@ type c17env struct {
 	rc   *vk.Rec
 	xz   *c17xzTool
 	seen map[string]int
+	nsmp map[string]int // samples recorded per phase
+}
+
+// sampleOK spreads the few written-out samples over the phases.
+func (e *c17env) sampleOK(phase string) bool {
+	limit := 2
+	if phase == "sw" || phase == "bd" {
+		limit = 1
+	}
+	if e.nsmp[phase] >= limit {
+		return false
+	}
+	e.nsmp[phase]++
+	return true
 }
 
 // wantXz decides whether the xz leg runs for this case. Spawning xz is the
@@ -1190,7 +1204,7 @@ func (e *c17env) roundTrip(phase string, idx int64, kind string, x []byte, pfx i
 		c17wuffsLegHook(rc, ff.name, enc, x, phase, idx)
 
 		rc.Class(ff.name + "|" + lc + "|" + ck + "|" + carry.class())
-		if rc.NSamples() < 6 && (idx%97 == 3 || len(x) > c17chunk64k) {
+		if (phase == "sw" && idx == 40 || phase != "sw" && len(x) > c17chunk64k) && e.sampleOK(phase) {
 			rc.Sample(c17sample{phase, ff.name, kind, len(x), len(enc), ck, carry.class(), vk.Trunc(x, 24)})
 		}
 	}
@@ -1802,7 +1816,7 @@ func (e *c17env) robustness(phase string, idx int64) {
 	oc := c17outcome(de)
 	rc.Class("rb|" + ff.name + "|" + mk + "|" + oc)
 	rc.Count("robust_"+strings.SplitN(oc, "|", 2)[0], 1)
-	if idx%1013 == 7 && rc.NSamples() < 6 {
+	if idx%1013 == 7 && e.sampleOK(phase) {
 		rc.Sample(c17rbSample{ff.name, mk, len(src), len(de.out), oc, vk.Trunc(src, 32)})
 	}
 }
@@ -1815,7 +1829,7 @@ func C17(rc *vk.Rec) {
 		// quick tier: a tighter logical budget than the driver's (a hang is a verdict)
 		vk.SetLimits(600, 0)
 	}
-	e := &c17env{rc: rc, xz: &c17xzTool{path: c17findXz()}, seen: map[string]int{}}
+	e := &c17env{rc: rc, xz: &c17xzTool{path: c17findXz()}, seen: map[string]int{}, nsmp: map[string]int{}}
 	if e.xz.path == "" {
 		e.xz.broken = true
 		rc.Inconclusive("no xz executable found (PATH, /usr/bin/xz, /root/miniconda/bin/xz)")
